@@ -93,13 +93,31 @@ def run(chk, repo):
     while p is not None and p is not close:
         chain.append(p)
         p = getattr(p, "_parent", None)
-    guards = [n for n in chain if isinstance(n, ast.If)]
-    withs = [n for n in chain if isinstance(n, ast.With)]
-    ok = len(guards) >= 1 and unparse(guards[-1].test) == "not self.finished" \
-        and unparse(guards[-1].body[0]) == "self.finished = True" \
-        and any(unparse(w.items[0].context_expr) == "self.halting" for w in withs)
-    chk.decide(ok, "C17.once", W("AudioIO.close"), "terminate under 'with self.halting: if not self.finished: self.finished = True'",
-               why="concurrent or repeated close() calls could terminate the backend twice", node=terms[0])
+    withs = [n for n in chain if isinstance(n, ast.With) and any(unparse(i.context_expr) == "self.halting" for i in n.items)]
+    ok = bool(withs)
+    why_ = "self._pa.terminate() is not inside 'with self.halting'"
+    if ok:
+        # which statements of the guarded block run when close() was / was not called before (guards evaluated)
+        from ..dtable import Facts, walk as dt_walk
+        has_term = lambda st: any(isinstance(n, ast.Call) and unparse(n.func) == "self._pa.terminate" for n in ast.walk(st))
+        again = dt_walk(withs[-1].body, Facts(truths={"self.finished": True}), W("AudioIO.close"), strict=False)
+        first = dt_walk(withs[-1].body, Facts(truths={"self.finished": False}), W("AudioIO.close"), strict=False)
+        effects = [st for st in again.ran if not isinstance(st, (ast.Return, ast.Pass))]
+        if effects:
+            ok, why_ = False, "a repeated close() still runs: %s" % short(effects[0])
+        else:
+            marks = [i for i, st in enumerate(first.ran) if unparse(st) == "self.finished = True"]
+            term_at = [i for i, st in enumerate(first.ran) if has_term(st)]
+            calls_before = [st for st in first.ran[:marks[0]] if any(isinstance(n, ast.Call) for n in ast.walk(st))] if marks else []
+            if not term_at:
+                ok, why_ = False, "the first close() does not reach self._pa.terminate()"
+            elif not marks or marks[0] > term_at[0]:
+                ok, why_ = False, "finished is not set before the backend is terminated"
+            elif calls_before:
+                ok, why_ = False, "%s runs before finished is set" % short(calls_before[0])
+    chk.decide(ok, "C17.once", W("AudioIO.close"), "under 'with self.halting': nothing runs when finished is set; otherwise it "
+               "is set first and the backend terminated",
+               why="concurrent or repeated close() calls could terminate the backend twice (%s)" % why_, node=terms[0])
     others = [n for n in ast.walk(mod.tree) if isinstance(n, ast.Call) and unparse(n.func).endswith("_pa.terminate")]
     chk.decide(len(others) == 1, "C17.once", W("AudioIO"), "%d call site(s) of _pa.terminate()" % len(others),
                why="backend termination must have a single guarded call site", node=mod.tree)
